@@ -58,8 +58,14 @@ Bad(s, why) == IF s.bad = "" THEN [s EXCEPT !.bad = why] ELSE s
 NoAns == [kind |-> "none", sym |-> "", ok |-> FALSE, code |-> <<>>, len |-> 0, id |-> "", set |-> <<>>, reset |-> <<>>,
           lang |-> "", ctxlang |-> ""]
 \* consult the resource: returns [s, a]
+\* While the engine's pre-VM check runs (pseudo node "_first" on the path) the VM talks to a private resource that knows
+\* nothing but that function: every node has empty code (no error), no other function exists.  The application's
+\* resource - the one that is modelled / logged - is not consulted for these.
+InFirst(s) == \E i \in DOMAIN s.path : s.path[i] = "_first"
 Ask(s, kind, sym) ==
-  IF UseLog
+  IF InFirst(s) /\ kind = "code" THEN [s |-> s, a |-> [NoAns EXCEPT !.kind = "code", !.sym = sym, !.ok = TRUE]]
+  ELSE IF InFirst(s) /\ kind = "funcfor" THEN [s |-> s, a |-> [NoAns EXCEPT !.kind = "funcfor", !.sym = sym, !.ok = (sym = "_first")]]
+  ELSE IF UseLog
   THEN IF s.ext = <<>> THEN [s |-> Bad(s, "missing " \o kind), a |-> NoAns]
        ELSE LET a == Head(s.ext)
                 s1 == [s EXCEPT !.ext = Tail(@)] IN
